@@ -909,13 +909,19 @@ func runR39(c *Ctx) {
 							if b.Op == token.EQL {
 								okIdx = 0
 							}
+							// the validated list: the []string argument, else the only slice argument (the []Order of Sort)
 							var base ssa.Value
+							var slices []ssa.Value
 							for _, a := range t.Call.Args {
 								if s, ok := a.Type().Underlying().(*types.Slice); ok {
+									slices = append(slices, a)
 									if bb, ok := s.Elem().Underlying().(*types.Basic); ok && bb.Kind() == types.String {
 										base = a
 									}
 								}
+							}
+							if base == nil && len(slices) == 1 {
+								base = slices[0]
 							}
 							units = append(units, unit{done: iff.Block().Succs[okIdx], edge: [2]*ssa.BasicBlock{iff.Block(), iff.Block().Succs[okIdx]}, base: base, pos: p.instrPos(t)})
 						}
